@@ -446,15 +446,17 @@ func (c *Conn) InjectStream() (remote *memnet.Conn, ok bool) {
 	}
 }
 
-func (c *Conn) As(any) bool                       { return false }
-func (c *Conn) LocalPeer() peer.ID                { return c.Local }
-func (c *Conn) RemotePeer() peer.ID               { return c.Remote }
-func (c *Conn) RemotePublicKey() ic.PubKey        { return c.PubKey }
-func (c *Conn) ConnState() network.ConnectionState { return network.ConnectionState{Transport: c.T.Name} }
-func (c *Conn) LocalMultiaddr() ma.Multiaddr      { return c.LAddr }
-func (c *Conn) RemoteMultiaddr() ma.Multiaddr     { return c.RAddr }
-func (c *Conn) Scope() network.ConnScope          { return &network.NullScope{} }
-func (c *Conn) Transport() transport.Transport    { return c.T }
+func (c *Conn) As(any) bool                { return false }
+func (c *Conn) LocalPeer() peer.ID         { return c.Local }
+func (c *Conn) RemotePeer() peer.ID        { return c.Remote }
+func (c *Conn) RemotePublicKey() ic.PubKey { return c.PubKey }
+func (c *Conn) ConnState() network.ConnectionState {
+	return network.ConnectionState{Transport: c.T.Name}
+}
+func (c *Conn) LocalMultiaddr() ma.Multiaddr   { return c.LAddr }
+func (c *Conn) RemoteMultiaddr() ma.Multiaddr  { return c.RAddr }
+func (c *Conn) Scope() network.ConnScope       { return &network.NullScope{} }
+func (c *Conn) Transport() transport.Transport { return c.T }
 func (c *Conn) Stat() network.ConnStats {
 	return network.ConnStats{Stats: network.Stats{Limited: c.Limited}}
 }
@@ -464,10 +466,10 @@ var _ network.ConnStat = (*Conn)(nil)
 
 // Stream is a fake network.MuxedStream backed by a memnet pipe.
 type Stream struct {
-	local  *memnet.Conn
-	Remote *memnet.Conn
-	conn   *Conn
-	WasReset atomic.Bool
+	local     *memnet.Conn
+	Remote    *memnet.Conn
+	conn      *Conn
+	WasReset  atomic.Bool
 	ResetCode atomic.Int64
 }
 
